@@ -1,5 +1,691 @@
 /-
-C05 — property theorems (stub; nothing proved yet).
+C05 — the solver honours its time and state contract for any model.
+
+Theorems about `KawinV.Solver` (hand model of DESolver.solve and the dt clamp, Solver.py 134-138,
+191-217) and `KawinV.Flatten` (GenericModel.flattenX/unflattenX, Coupler bookkeeping), tied to the
+source by tools/corr/C05.py on every run.  α is any linearly ordered field.
+
+The user model is the pair (`propose`, `stopAt`) of ARBITRARY functions of the history of accepted
+times; every theorem below is for all of them, by induction over the loop (no bound on the number
+of steps).  Hypotheses of the main theorems: `t0 < tf`, `0 < minFrac ≤ maxFrac`.
 -/
+import KawinV.Model.Solver
+import KawinV.Model.Flatten
+import Mathlib.Tactic.Ring
+import Mathlib.Tactic.Linarith
+import Mathlib.Tactic.NormNum
+import Mathlib.Algebra.Order.Field.Basic
+
+set_option linter.unusedSectionVars false
+set_option linter.unusedVariables false
+set_option linter.unusedSimpArgs false
+
 namespace KawinV.Props.C05
+open KawinV.Solver
+
+variable {α : Type} [Field α] [LinearOrder α] [IsStrictOrderedRing α]
+
+/-! ### the clamp, for every kind of proposal -/
+
+theorem clampDt_fin (dtmin dtmax x : α) :
+    clampDt dtmin dtmax (.fin x) =
+      if dtmin < x then (if x < dtmax then x else dtmax) else (if dtmin < dtmax then dtmin else dtmax) := by
+  unfold clampDt
+  by_cases h : dtmin < x <;> simp [Dt.gt, Dt.lt, h]
+
+/-- `inf`: not below any maximum, so the step is the maximum -/
+theorem clampDt_posInf (dtmin dtmax : α) : clampDt dtmin dtmax .posInf = dtmax := by
+  simp [clampDt, Dt.gt, Dt.lt]
+
+/-- `-inf` and `NaN` are "not > dtmin": the step is the minimum (or the maximum if that is smaller) -/
+theorem clampDt_negInf (dtmin dtmax : α) :
+    clampDt dtmin dtmax .negInf = if dtmin < dtmax then dtmin else dtmax := by
+  simp [clampDt, Dt.gt, Dt.lt]
+
+theorem clampDt_nan (dtmin dtmax : α) :
+    clampDt dtmin dtmax .nan = if dtmin < dtmax then dtmin else dtmax := by
+  simp [clampDt, Dt.gt, Dt.lt]
+
+/-- whatever is proposed, the step never exceeds the current maximum -/
+theorem clampDt_le_max (dtmin dtmax : α) (d : Dt α) : clampDt dtmin dtmax d ≤ dtmax := by
+  cases d with
+  | fin x => rw [clampDt_fin]; split_ifs <;> linarith
+  | posInf => rw [clampDt_posInf]
+  | negInf => rw [clampDt_negInf]; split_ifs <;> linarith
+  | nan => rw [clampDt_nan]; split_ifs <;> linarith
+
+/-- whatever is proposed, the step is at least the minimum when the minimum fits under the maximum -/
+theorem clampDt_ge_min (dtmin dtmax : α) (d : Dt α) (h : dtmin ≤ dtmax) :
+    dtmin ≤ clampDt dtmin dtmax d := by
+  cases d with
+  | fin x => rw [clampDt_fin]; split_ifs <;> linarith
+  | posInf => rw [clampDt_posInf]; exact h
+  | negInf => rw [clampDt_negInf]; split_ifs <;> linarith
+  | nan => rw [clampDt_nan]; split_ifs <;> linarith
+
+/-- … and exactly the maximum when the maximum is not above the minimum (the short last step) -/
+theorem clampDt_eq_max (dtmin dtmax : α) (d : Dt α) (h : dtmax ≤ dtmin) :
+    clampDt dtmin dtmax d = dtmax := by
+  cases d with
+  | fin x => rw [clampDt_fin]; split_ifs <;> first | rfl | linarith
+  | posInf => rw [clampDt_posInf]
+  | negInf => rw [clampDt_negInf]; split_ifs <;> first | rfl | linarith
+  | nan => rw [clampDt_nan]; split_ifs <;> first | rfl | linarith
+
+theorem clampDt_pos (dtmin dtmax : α) (d : Dt α) (h1 : 0 < dtmin) (h2 : 0 < dtmax) :
+    0 < clampDt dtmin dtmax d := by
+  rcases le_total dtmin dtmax with h | h
+  · exact lt_of_lt_of_le h1 (clampDt_ge_min dtmin dtmax d h)
+  · rw [clampDt_eq_max dtmin dtmax d h]; exact h2
+
+/-- a proposal strictly inside (dtmin, dtmax) is taken as it is -/
+theorem clampDt_inside (dtmin dtmax x : α) (h1 : dtmin < x) (h2 : x < dtmax) :
+    clampDt dtmin dtmax (.fin x) = x := by
+  rw [clampDt_fin]; simp [h1, h2]
+
+/-! ### one pass through the loop body -/
+
+section step
+variable (tf dtmin : α) (propose : List α → Dt α) (stopAt : List α → Bool)
+
+/-- the maximum used in this pass: `min(self._dtmax, tf - currTime)` -/
+def newMax (tf : α) (s : St α) : α := if tf - s.cur < s.dtmax then tf - s.cur else s.dtmax
+
+/-- the step taken in this pass -/
+def dtOf (tf dtmin : α) (propose : List α → Dt α) (s : St α) : α :=
+  clampDt dtmin (newMax tf s) (propose s.times)
+
+theorem step_cur (s : St α) : (step tf dtmin propose stopAt s).cur = s.cur + dtOf tf dtmin propose s := rfl
+theorem step_dtmax (s : St α) : (step tf dtmin propose stopAt s).dtmax = newMax tf s := rfl
+theorem step_steps (s : St α) :
+    (step tf dtmin propose stopAt s).steps = (s.cur, dtOf tf dtmin propose s) :: s.steps := rfl
+
+/-- **stop**: the flag after a pass is exactly what the model answered for the new history -/
+theorem step_stop (s : St α) :
+    (step tf dtmin propose stopAt s).stop = stopAt (step tf dtmin propose stopAt s).times := rfl
+
+theorem step_times (s : St α) :
+    (step tf dtmin propose stopAt s).times = (s.cur + dtOf tf dtmin propose s) :: s.times := rfl
+
+theorem newMax_le_rem (s : St α) : newMax tf s ≤ tf - s.cur := by
+  unfold newMax; split_ifs <;> linarith
+
+theorem newMax_le_old (s : St α) : newMax tf s ≤ s.dtmax := by
+  unfold newMax; split_ifs <;> linarith
+
+theorem newMax_pos (s : St α) (h : s.cur < tf) (hm : 0 < s.dtmax) : 0 < newMax tf s := by
+  unfold newMax; split_ifs <;> linarith
+
+theorem newMax_cases (s : St α) : newMax tf s = tf - s.cur ∨ (newMax tf s = s.dtmax ∧ s.dtmax ≤ tf - s.cur) := by
+  unfold newMax; split_ifs with h
+  · exact Or.inl rfl
+  · exact Or.inr ⟨rfl, not_lt.mp h⟩
+
+end step
+
+/-! ### loop invariant -/
+
+/-- what holds of the loop state at every iteration, whatever the model does -/
+structure Inv (t0 tf dtmin dmax : α) (s : St α) : Prop where
+  dtmax_pos : 0 < s.dtmax
+  dtmax_le : s.dtmax ≤ dmax
+  lo : t0 ≤ s.cur
+  hi : s.cur ≤ tf
+  minOrDone : dtmin ≤ s.dtmax ∨ s.cur = tf
+  stepsOk : ∀ p ∈ s.steps, t0 ≤ p.1 ∧ p.1 < tf ∧ 0 < p.2 ∧ p.2 ≤ dmax ∧ p.1 + p.2 ≤ s.cur ∧
+              (dtmin ≤ p.2 ∨ p.1 + p.2 = tf)
+  chain : s.steps.Pairwise (fun p q => q.1 + q.2 ≤ p.1)
+  curEq : (s.steps = [] ∧ s.cur = t0) ∨ ∃ p r, s.steps = p :: r ∧ s.cur = p.1 + p.2
+
+section inv
+variable {t0 tf dtmin dmax : α} {propose : List α → Dt α} {stopAt : List α → Bool}
+
+theorem inv_init (t0 tf minFrac maxFrac : α) (h : t0 < tf) (hmin : 0 < minFrac) (hmm : minFrac ≤ maxFrac) :
+    Inv t0 tf (minFrac * (tf - t0)) (maxFrac * (tf - t0)) (initSt t0 tf maxFrac) := by
+  have hd : 0 < tf - t0 := sub_pos.mpr h
+  refine ⟨?_, le_refl _, le_refl _, h.le, Or.inl ?_, ?_, ?_, Or.inl ⟨rfl, rfl⟩⟩
+  · exact mul_pos (lt_of_lt_of_le hmin hmm) hd
+  · exact mul_le_mul_of_nonneg_right hmm hd.le
+  · intro p hp; simp [initSt] at hp
+  · simp [initSt]
+
+/-- dichotomy of a pass: the step is at least the minimum, or it lands exactly on tf -/
+theorem step_progress (s : St α) (hI : Inv t0 tf dtmin dmax s) (hc : s.cur < tf) :
+    dtmin ≤ dtOf tf dtmin propose s ∨ s.cur + dtOf tf dtmin propose s = tf := by
+  unfold dtOf
+  rcases le_or_gt dtmin (newMax tf s) with h | h
+  · exact Or.inl (clampDt_ge_min _ _ _ h)
+  · right
+    rw [clampDt_eq_max _ _ _ h.le]
+    rcases newMax_cases tf s with h1 | ⟨h1, _⟩
+    · rw [h1]; ring
+    · exfalso
+      rcases hI.minOrDone with h2 | h2
+      · rw [h1] at h; linarith
+      · rw [h2] at hc; exact lt_irrefl _ hc
+
+theorem inv_step (hmin : 0 < dtmin) (s : St α) (hI : Inv t0 tf dtmin dmax s) (hc : s.cur < tf) :
+    Inv t0 tf dtmin dmax (step tf dtmin propose stopAt s) := by
+  have hpos := newMax_pos tf s hc hI.dtmax_pos
+  have hdt_pos : 0 < dtOf tf dtmin propose s := clampDt_pos _ _ _ hmin hpos
+  have hdt_le : dtOf tf dtmin propose s ≤ newMax tf s := clampDt_le_max _ _ _
+  have hrem := newMax_le_rem tf s
+  have hold := newMax_le_old tf s
+  have hprog := step_progress (propose := propose) s hI hc
+  refine ⟨?_, ?_, ?_, ?_, ?_, ?_, ?_, ?_⟩
+  · rw [step_dtmax]; exact hpos
+  · rw [step_dtmax]; exact le_trans hold hI.dtmax_le
+  · rw [step_cur]; linarith [hI.lo]
+  · rw [step_cur]; linarith
+  · rw [step_dtmax, step_cur]
+    rcases le_or_gt dtmin (newMax tf s) with h | h
+    · exact Or.inl h
+    · right
+      rcases hprog with h1 | h1
+      · linarith
+      · exact h1
+  · intro p hp
+    rw [step_steps] at hp
+    rw [step_cur]
+    rcases List.mem_cons.mp hp with rfl | hp
+    · refine ⟨hI.lo, hc, hdt_pos, ?_, le_refl _, hprog⟩
+      exact le_trans hdt_le (le_trans hold hI.dtmax_le)
+    · obtain ⟨a, b, c, d, e, f⟩ := hI.stepsOk p hp
+      exact ⟨a, b, c, d, by linarith, f⟩
+  · rw [step_steps]
+    refine List.pairwise_cons.mpr ⟨?_, hI.chain⟩
+    intro q hq
+    exact (hI.stepsOk q hq).2.2.2.2.1
+  · right; exact ⟨_, _, step_steps tf dtmin propose stopAt s, step_cur tf dtmin propose stopAt s⟩
+
+theorem inv_run (hmin : 0 < dtmin) (n : Nat) (s : St α) (hI : Inv t0 tf dtmin dmax s) :
+    Inv t0 tf dtmin dmax (run tf dtmin propose stopAt n s) := by
+  induction n generalizing s with
+  | zero => exact hI
+  | succ n ih =>
+    unfold run
+    split_ifs with h
+    · exact ih _ (inv_step hmin s hI h.1)
+    · exact hI
+
+end inv
+
+/-! ### the loop: termination and stop -/
+
+section run
+variable (tf dtmin : α) (propose : List α → Dt α) (stopAt : List α → Bool)
+
+/-- the loop body is not entered when the end time is reached or a stop was requested -/
+theorem run_not_running (n : Nat) (s : St α) (h : ¬ (s.cur < tf ∧ s.stop = false)) :
+    run tf dtmin propose stopAt n s = s := by
+  cases n with
+  | zero => rfl
+  | succ n => unfold run; rw [if_neg h]
+
+/-- **stop**: a state with the stop flag set is final — no further step, whatever the fuel -/
+theorem run_of_stopped (n : Nat) (s : St α) (h : s.stop = true) : run tf dtmin propose stopAt n s = s :=
+  run_not_running tf dtmin propose stopAt n s (by simp [h])
+
+theorem run_of_done (n : Nat) (s : St α) (h : tf ≤ s.cur) : run tf dtmin propose stopAt n s = s :=
+  run_not_running tf dtmin propose stopAt n s (by intro hh; exact absurd hh.1 (not_lt.mpr h))
+
+theorem run_succ (n : Nat) (s : St α) :
+    run tf dtmin propose stopAt (n + 1) s =
+      if s.cur < tf ∧ s.stop = false then run tf dtmin propose stopAt n (step tf dtmin propose stopAt s) else s := rfl
+
+theorem run_add (n m : Nat) (s : St α) :
+    run tf dtmin propose stopAt (n + m) s = run tf dtmin propose stopAt m (run tf dtmin propose stopAt n s) := by
+  induction n generalizing s with
+  | zero => simp [run]
+  | succ n ih =>
+    rw [show n + 1 + m = (n + m) + 1 by omega, run_succ tf dtmin propose stopAt (n + m) s,
+      run_succ tf dtmin propose stopAt n s]
+    split_ifs with h
+    · exact ih _
+    · exact (run_not_running tf dtmin propose stopAt m s h).symm
+
+/-- **stop ends the run at that step**: once a run has ended with the stop flag, more fuel
+changes nothing -/
+theorem stop_ends_run (n m : Nat) (s : St α) (h : (run tf dtmin propose stopAt n s).stop = true) :
+    run tf dtmin propose stopAt (n + m) s = run tf dtmin propose stopAt n s := by
+  rw [run_add]; exact run_of_stopped tf dtmin propose stopAt m _ h
+
+/-- the only ways a run ends: end time reached, stop requested, or fuel used up (one accepted
+step per unit of fuel) -/
+theorem run_outcome (n : Nat) (s : St α) :
+    tf ≤ (run tf dtmin propose stopAt n s).cur ∨ (run tf dtmin propose stopAt n s).stop = true ∨
+      (run tf dtmin propose stopAt n s).steps.length = s.steps.length + n := by
+  induction n generalizing s with
+  | zero => right; right; rfl
+  | succ n ih =>
+    unfold run
+    split_ifs with h
+    · rcases ih (step tf dtmin propose stopAt s) with h1 | h1 | h1
+      · exact Or.inl h1
+      · exact Or.inr (Or.inl h1)
+      · right; right; rw [h1, step_steps]; simp; omega
+    · rcases not_and_or.mp h with h1 | h1
+      · exact Or.inl (not_lt.mp h1)
+      · right; left; simpa using h1
+
+/-- never more accepted steps than fuel -/
+theorem run_steps_le (n : Nat) (s : St α) :
+    (run tf dtmin propose stopAt n s).steps.length ≤ s.steps.length + n := by
+  induction n generalizing s with
+  | zero => exact le_refl _
+  | succ n ih =>
+    unfold run
+    split_ifs with h
+    · have := ih (step tf dtmin propose stopAt s); rw [step_steps] at this; simp at this; omega
+    · omega
+
+/-- **stop ends the run at that step (count form)**: if the model answers "stop" for every history
+of k+1 accepted times, no run has more than k+1 accepted steps — and the run that got there has
+the stop flag set. -/
+theorem run_stops_by (k : Nat) (hstop : ∀ h : List α, h.length = k + 1 → stopAt h = true)
+    (n : Nat) (s : St α)
+    (hs : s.steps.length ≤ k ∨ (s.steps.length = k + 1 ∧ s.stop = true)) :
+    (run tf dtmin propose stopAt n s).steps.length ≤ k ∨
+      ((run tf dtmin propose stopAt n s).steps.length = k + 1 ∧ (run tf dtmin propose stopAt n s).stop = true) := by
+  induction n generalizing s with
+  | zero => exact hs
+  | succ n ih =>
+    unfold run
+    split_ifs with h
+    · apply ih
+      rcases hs with h1 | ⟨_, h2⟩
+      · rcases Nat.lt_or_ge s.steps.length k with h3 | h3
+        · left; rw [step_steps]; simp; omega
+        · right
+          have hl : (step tf dtmin propose stopAt s).steps.length = k + 1 := by
+            rw [step_steps]; simp; omega
+          refine ⟨hl, ?_⟩
+          rw [step_stop]; apply hstop
+          unfold St.times; simpa using hl
+      · rw [h.2] at h2; exact absurd h2 (by simp)
+    · exact hs
+
+end run
+
+/-! ### the property, for `solve` -/
+
+section solve
+variable (t0 tf minFrac maxFrac : α) (propose : List α → Dt α) (stopAt : List α → Bool)
+
+theorem solve_inv (h : t0 < tf) (hmin : 0 < minFrac) (hmm : minFrac ≤ maxFrac) (fuel : Nat) :
+    Inv t0 tf (minFrac * (tf - t0)) (maxFrac * (tf - t0))
+      (solve t0 tf minFrac maxFrac propose stopAt fuel) :=
+  inv_run (mul_pos hmin (sub_pos.mpr h)) fuel _ (inv_init t0 tf minFrac maxFrac h hmin hmm)
+
+/-- **monotone**: accepted times strictly increase (the list is newest first) -/
+theorem solve_times_increasing (h : t0 < tf) (hmin : 0 < minFrac) (hmm : minFrac ≤ maxFrac) (fuel : Nat) :
+    (solve t0 tf minFrac maxFrac propose stopAt fuel).times.Pairwise (fun newer older => older < newer) := by
+  have hI := solve_inv t0 tf minFrac maxFrac propose stopAt h hmin hmm fuel
+  unfold St.times
+  rw [List.pairwise_map]
+  refine List.Pairwise.imp_of_mem ?_ hI.chain
+  intro p q hp _ hpq
+  have := (hI.stepsOk p hp).2.2.1
+  linarith
+
+/-- **no overshoot**: every accepted time lies in (t0, tf] -/
+theorem solve_times_bounds (h : t0 < tf) (hmin : 0 < minFrac) (hmm : minFrac ≤ maxFrac) (fuel : Nat) :
+    ∀ x ∈ (solve t0 tf minFrac maxFrac propose stopAt fuel).times, t0 < x ∧ x ≤ tf := by
+  have hI := solve_inv t0 tf minFrac maxFrac propose stopAt h hmin hmm fuel
+  intro x hx
+  unfold St.times at hx
+  obtain ⟨p, hp, rfl⟩ := List.mem_map.mp hx
+  obtain ⟨a, b, c, d, e, f⟩ := hI.stepsOk p hp
+  exact ⟨by linarith, le_trans e hI.hi⟩
+
+/-- the clock itself never passes tf, and it is the last accepted time (or t0 before any step) -/
+theorem solve_cur_le (h : t0 < tf) (hmin : 0 < minFrac) (hmm : minFrac ≤ maxFrac) (fuel : Nat) :
+    (solve t0 tf minFrac maxFrac propose stopAt fuel).cur ≤ tf :=
+  (solve_inv t0 tf minFrac maxFrac propose stopAt h hmin hmm fuel).hi
+
+theorem solve_cur_is_last (h : t0 < tf) (hmin : 0 < minFrac) (hmm : minFrac ≤ maxFrac) (fuel : Nat) :
+    (solve t0 tf minFrac maxFrac propose stopAt fuel).cur =
+      ((solve t0 tf minFrac maxFrac propose stopAt fuel).times.head?).getD t0 := by
+  have hI := solve_inv t0 tf minFrac maxFrac propose stopAt h hmin hmm fuel
+  rcases hI.curEq with ⟨h1, h2⟩ | ⟨p, r, h1, h2⟩
+  · unfold St.times; rw [h1, h2]; rfl
+  · unfold St.times; rw [h1, h2]; rfl
+
+/-- **step bounds (upper)**: every step is positive and at most maxFrac·(tf − t0) -/
+theorem solve_dt_le_max (h : t0 < tf) (hmin : 0 < minFrac) (hmm : minFrac ≤ maxFrac) (fuel : Nat) :
+    ∀ d ∈ (solve t0 tf minFrac maxFrac propose stopAt fuel).dts, 0 < d ∧ d ≤ maxFrac * (tf - t0) := by
+  have hI := solve_inv t0 tf minFrac maxFrac propose stopAt h hmin hmm fuel
+  intro d hd
+  unfold St.dts at hd
+  obtain ⟨p, hp, rfl⟩ := List.mem_map.mp hd
+  obtain ⟨a, b, c, d, e, f⟩ := hI.stepsOk p hp
+  exact ⟨c, d⟩
+
+/-- **step bounds (lower)**: every step (start c, size d) is at least minFrac·(tf − t0), or it is
+exactly the remaining time tf − c -/
+theorem solve_dt_ge_min (h : t0 < tf) (hmin : 0 < minFrac) (hmm : minFrac ≤ maxFrac) (fuel : Nat) :
+    ∀ p ∈ (solve t0 tf minFrac maxFrac propose stopAt fuel).steps,
+      minFrac * (tf - t0) ≤ p.2 ∨ p.2 = tf - p.1 := by
+  have hI := solve_inv t0 tf minFrac maxFrac propose stopAt h hmin hmm fuel
+  intro p hp
+  rcases (hI.stepsOk p hp).2.2.2.2.2 with h1 | h1
+  · exact Or.inl h1
+  · right; linarith
+
+/-- … and only the LAST step can be that short one: every step before the newest is ≥ the minimum -/
+theorem solve_short_step_is_last (h : t0 < tf) (hmin : 0 < minFrac) (hmm : minFrac ≤ maxFrac) (fuel : Nat)
+    (p : α × α) (rest : List (α × α))
+    (hs : (solve t0 tf minFrac maxFrac propose stopAt fuel).steps = p :: rest) :
+    ∀ q ∈ rest, minFrac * (tf - t0) ≤ q.2 := by
+  have hI := solve_inv t0 tf minFrac maxFrac propose stopAt h hmin hmm fuel
+  intro q hq
+  have hch := hI.chain
+  rw [hs] at hch
+  have h1 : q.1 + q.2 ≤ p.1 := (List.pairwise_cons.mp hch).1 q hq
+  have hp := hI.stepsOk p (by rw [hs]; exact List.mem_cons_self)
+  have hq' := hI.stepsOk q (by rw [hs]; exact List.mem_cons_of_mem _ hq)
+  rcases hq'.2.2.2.2.2 with h2 | h2
+  · exact h2
+  · exfalso; linarith [hp.2.1]
+
+/-- progress of a run whose model never asks to stop: after n units of fuel the clock is at tf
+or at least n minimum steps beyond where it started -/
+theorem run_progress {dtmin dmax : α} (hmin : 0 < dtmin) (hns : ∀ hst, stopAt hst = false)
+    (n : Nat) (s : St α) (hI : Inv t0 tf dtmin dmax s) (hs : s.stop = false) :
+    (run tf dtmin propose stopAt n s).cur = tf ∨
+      s.cur + (n : α) * dtmin ≤ (run tf dtmin propose stopAt n s).cur := by
+  induction n generalizing s with
+  | zero => right; simp [run]
+  | succ n ih =>
+    unfold run
+    split_ifs with hc
+    · have hI' := inv_step (propose := propose) (stopAt := stopAt) hmin s hI hc.1
+      have hs' : (step tf dtmin propose stopAt s).stop = false := by rw [step_stop]; exact hns _
+      rcases step_progress (propose := propose) s hI hc.1 with h1 | h1
+      · rcases ih _ hI' hs' with h2 | h2
+        · exact Or.inl h2
+        · right
+          rw [step_cur] at h2
+          push_cast
+          linarith
+      · left
+        have : tf ≤ (step tf dtmin propose stopAt s).cur := by rw [step_cur, h1]
+        rw [run_of_done tf dtmin propose stopAt n _ this, step_cur, h1]
+    · left
+      rcases not_and_or.mp hc with h1 | h1
+      · exact le_antisymm hI.hi (not_lt.mp h1)
+      · exact absurd hs h1
+
+/-- **exact end**: if the model never asks to stop and N·minFrac ≥ 1, then N units of fuel
+suffice and the final time is exactly tf — for every proposal function -/
+theorem solve_reaches_tf (h : t0 < tf) (hmin : 0 < minFrac) (hmm : minFrac ≤ maxFrac)
+    (hns : ∀ hst, stopAt hst = false) (N : Nat) (hN : 1 ≤ (N : α) * minFrac) :
+    (solve t0 tf minFrac maxFrac propose stopAt N).cur = tf := by
+  have hd : 0 < tf - t0 := sub_pos.mpr h
+  have hI0 := inv_init t0 tf minFrac maxFrac h hmin hmm
+  rcases run_progress t0 tf propose stopAt (mul_pos hmin hd) hns N _ hI0 rfl with h1 | h1
+  · exact h1
+  · have hle := solve_cur_le t0 tf minFrac maxFrac propose stopAt h hmin hmm N
+    apply le_antisymm hle
+    have : (tf - t0) ≤ (N : α) * (minFrac * (tf - t0)) := by
+      have := mul_le_mul_of_nonneg_right hN hd.le
+      linarith
+    have h0 : (initSt t0 tf maxFrac).cur = t0 := rfl
+    rw [h0] at h1
+    unfold solve
+    linarith
+
+/-- … and more fuel than that changes nothing: the loop has terminated -/
+theorem solve_terminated (h : t0 < tf) (hmin : 0 < minFrac) (hmm : minFrac ≤ maxFrac)
+    (hns : ∀ hst, stopAt hst = false) (N : Nat) (hN : 1 ≤ (N : α) * minFrac) (m : Nat) :
+    solve t0 tf minFrac maxFrac propose stopAt (N + m) = solve t0 tf minFrac maxFrac propose stopAt N := by
+  unfold solve
+  rw [run_add]
+  apply run_of_done
+  have := solve_reaches_tf t0 tf minFrac maxFrac propose stopAt h hmin hmm hns N hN
+  unfold solve at this
+  rw [this]
+
+/-- so the number of accepted steps is at most N (termination bound 1/minFrac, rounded up) -/
+theorem solve_steps_bound (h : t0 < tf) (hmin : 0 < minFrac) (hmm : minFrac ≤ maxFrac)
+    (hns : ∀ hst, stopAt hst = false) (N : Nat) (hN : 1 ≤ (N : α) * minFrac) (fuel : Nat) :
+    (solve t0 tf minFrac maxFrac propose stopAt fuel).steps.length ≤ N := by
+  rcases Nat.le_total fuel N with hle | hle
+  · have := run_steps_le tf (minFrac * (tf - t0)) propose stopAt fuel (initSt t0 tf maxFrac)
+    unfold solve; simp [initSt] at this ⊢; omega
+  · obtain ⟨m, rfl⟩ := Nat.exists_eq_add_of_le hle
+    rw [solve_terminated t0 tf minFrac maxFrac propose stopAt h hmin hmm hns N hN m]
+    have := run_steps_le tf (minFrac * (tf - t0)) propose stopAt N (initSt t0 tf maxFrac)
+    unfold solve; simp [initSt] at this ⊢; omega
+
+/-- **stop**: if the model answers "stop" for every history of k+1 accepted times, the run has at
+most k+1 accepted steps whatever the fuel -/
+theorem solve_stops_by (k : Nat) (hstop : ∀ hst : List α, hst.length = k + 1 → stopAt hst = true) (fuel : Nat) :
+    (solve t0 tf minFrac maxFrac propose stopAt fuel).steps.length ≤ k + 1 := by
+  have := run_stops_by tf (minFrac * (tf - t0)) propose stopAt k hstop fuel (initSt t0 tf maxFrac)
+    (Or.inl (by simp [initSt]))
+  unfold solve
+  rcases this with h | ⟨h, _⟩ <;> omega
+
+/-- **degenerate configuration (observation, not part of the property)**: with `minDtFrac = 0` the
+code has no guard: a model that proposes 0, a negative number, -inf or NaN makes no progress,
+the clock stays at t0 for any number of iterations -/
+theorem no_progress_without_min (h : t0 < tf) (hmax : 0 < maxFrac) (d : Dt α) (hd : d.gt 0 = false) (fuel : Nat) :
+    (solve t0 tf 0 maxFrac (fun _ => d) (fun _ => false) fuel).cur = t0 := by
+  unfold solve
+  have hd0 : 0 < tf - t0 := sub_pos.mpr h
+  have key : ∀ n (s : St α), s.cur = t0 → 0 < s.dtmax →
+      (run tf (0 * (tf - t0)) (fun _ => d) (fun _ => false) n s).cur = t0 := by
+    intro n
+    induction n with
+    | zero => intro s h1 _; exact h1
+    | succ n ih =>
+      intro s h1 h2
+      unfold run
+      split_ifs with hc
+      · have hm : 0 < newMax tf s := newMax_pos tf s hc.1 h2
+        have hz : dtOf tf (0 * (tf - t0)) (fun _ => d) s = 0 := by
+          unfold dtOf clampDt
+          simp only [zero_mul, hd, Bool.false_eq_true, if_false, Dt.lt, hm, decide_true, if_true]
+        apply ih
+        · rw [step_cur, hz, h1, add_zero]
+        · rw [step_dtmax]; exact hm
+      · exact h1
+  exact key fuel _ rfl (mul_pos hmax hd0)
+
+end solve
+
+/-! ### nested states: flatten / unflatten -/
+
+section flat
+open KawinV.Flatten
+variable {β : Type}
+
+theorem flatten_cons (it : Item β) (X : List (Item β)) : flatten (it :: X) = it.data ++ flatten X := by
+  simp [flatten]
+
+theorem flatten_length (X : List (Item β)) (hwf : ∀ it ∈ X, it.wf) : (flatten X).length = totalSize X := by
+  induction X with
+  | nil => rfl
+  | cons it X ih =>
+    rw [flatten_cons, List.length_append, ih (fun i hi => hwf i (List.mem_cons_of_mem _ hi))]
+    have := hwf it List.mem_cons_self
+    cases it with
+    | scalar x => simp [Item.data, totalSize, Item.size]
+    | arr sh d => simp [Item.data, totalSize, Item.size, Item.wf] at this ⊢; omega
+
+/-- **round trip**: unflattening the flattened state by its own structure gives the state back
+(also when the flat vector carries further entries behind it, as inside a Coupler) -/
+theorem unflatten_flatten (X : List (Item β)) (hwf : ∀ it ∈ X, it.wf) (rest : List β) :
+    unflatten (flatten X ++ rest) X = some X := by
+  induction X with
+  | nil => rfl
+  | cons it X ih =>
+    have ih' := ih (fun i hi => hwf i (List.mem_cons_of_mem _ hi))
+    have hw := hwf it List.mem_cons_self
+    rw [flatten_cons, List.append_assoc]
+    cases it with
+    | scalar x => simp [Item.data, unflatten, ih']
+    | arr sh d =>
+      simp only [Item.wf] at hw
+      change unflatten (d ++ (flatten X ++ rest)) (Item.arr sh d :: X) = _
+      rw [unflatten, if_neg (by simp [hw])]
+      rw [← hw, List.drop_left, List.take_left, ih']
+      rfl
+
+/-- **structure handed to callbacks**: whatever flat vector the iterator produced, the unflattened
+state has exactly the reference structure and shapes, and every array has prod(shape) elements -/
+theorem unflatten_shapes (ref : List (Item β)) (flat : List β) (Y : List (Item β))
+    (h : unflatten flat ref = some Y) : shapes Y = shapes ref ∧ ∀ it ∈ Y, it.wf := by
+  induction ref generalizing flat Y with
+  | nil => simp [unflatten] at h; subst h; simp [shapes]
+  | cons it ref ih =>
+    cases it with
+    | scalar x =>
+      cases flat with
+      | nil => simp [unflatten] at h
+      | cons a fs =>
+        simp only [unflatten, Option.map_eq_some_iff] at h
+        obtain ⟨t, ht, rfl⟩ := h
+        obtain ⟨h1, h2⟩ := ih fs t ht
+        refine ⟨by simp [shapes, Item.shape] at h1 ⊢; exact h1, ?_⟩
+        intro i hi
+        rcases List.mem_cons.mp hi with rfl | hi
+        · trivial
+        · exact h2 i hi
+    | arr sh d =>
+      simp only [unflatten] at h
+      split_ifs at h with hlen
+      simp only [Option.map_eq_some_iff] at h
+      obtain ⟨t, ht, rfl⟩ := h
+      obtain ⟨h1, h2⟩ := ih _ t ht
+      refine ⟨by simp [shapes, Item.shape] at h1 ⊢; exact h1, ?_⟩
+      intro i hi
+      rcases List.mem_cons.mp hi with rfl | hi
+      · simp only [Item.wf, List.length_take]; omega
+      · exact h2 i hi
+
+/-- no information is lost the other way either: flattening the unflattened state gives the
+first totalSize(ref) entries of the flat vector back -/
+theorem flatten_unflatten (ref : List (Item β)) (flat : List β) (Y : List (Item β))
+    (h : unflatten flat ref = some Y) : flatten Y = flat.take (totalSize ref) := by
+  induction ref generalizing flat Y with
+  | nil => simp [unflatten] at h; subst h; simp [flatten, totalSize]
+  | cons it ref ih =>
+    cases it with
+    | scalar x =>
+      cases flat with
+      | nil => simp [unflatten] at h
+      | cons a fs =>
+        simp only [unflatten, Option.map_eq_some_iff] at h
+        obtain ⟨t, ht, rfl⟩ := h
+        rw [flatten_cons, ih fs t ht]
+        simp only [Item.data, totalSize, List.map_cons, List.sum_cons, Item.size]
+        rw [show 1 + (List.map Item.size ref).sum = (List.map Item.size ref).sum + 1 by omega,
+          List.take_succ_cons]
+        rfl
+    | arr sh d =>
+      simp only [unflatten] at h
+      split_ifs at h with hlen
+      simp only [Option.map_eq_some_iff] at h
+      obtain ⟨t, ht, rfl⟩ := h
+      rw [flatten_cons, ih _ t ht]
+      simp only [Item.data, totalSize, List.map_cons, List.sum_cons, Item.size]
+      rw [List.take_add]
+
+/-- unflatten fails only on a flat vector that is too short -/
+theorem unflatten_isSome (ref : List (Item β)) (flat : List β) (h : totalSize ref ≤ flat.length) :
+    ∃ Y, unflatten flat ref = some Y := by
+  induction ref generalizing flat with
+  | nil => exact ⟨[], rfl⟩
+  | cons it ref ih =>
+    cases it with
+    | scalar x =>
+      cases flat with
+      | nil => simp [totalSize, Item.size] at h
+      | cons a fs =>
+        simp only [totalSize, List.map_cons, List.sum_cons, Item.size, List.length_cons] at h
+        obtain ⟨Y, hY⟩ := ih fs (by unfold totalSize; omega)
+        exact ⟨Item.scalar a :: Y, by simp [unflatten, hY]⟩
+    | arr sh d =>
+      simp only [totalSize, List.map_cons, List.sum_cons, Item.size] at h
+      obtain ⟨Y, hY⟩ := ih (flat.drop (prodL sh)) (by unfold totalSize; rw [List.length_drop]; omega)
+      refine ⟨Item.arr sh (flat.take (prodL sh)) :: Y, ?_⟩
+      rw [unflatten, if_neg (by omega), hY]; rfl
+
+/-! ### Coupler -/
+
+/-- `_sizeRef` adds up to the length of the concatenated vector -/
+theorem sizeRef_sum (Xs : List (List (Item β))) : (flattenC Xs).2.sum = (flattenC Xs).1.length := by
+  induction Xs with
+  | nil => rfl
+  | cons X Xs ih => simp [flattenC] at ih ⊢; rw [ih]
+
+/-- **Coupler round trip**: several models with differently shaped states -/
+theorem unflattenC_flattenC (Xs : List (List (Item β))) (hwf : ∀ X ∈ Xs, ∀ it ∈ X, it.wf) :
+    unflattenC (flattenC Xs).1 (flattenC Xs).2 Xs = some Xs := by
+  induction Xs with
+  | nil => rfl
+  | cons X Xs ih =>
+    have ih' := ih (fun Y hY => hwf Y (List.mem_cons_of_mem _ hY))
+    have hX := hwf X List.mem_cons_self
+    simp only [flattenC, List.map_cons, List.flatten_cons] at ih' ⊢
+    simp only [unflattenC]
+    rw [List.take_left]
+    have := unflatten_flatten X hX []
+    rw [List.append_nil] at this
+    rw [this]
+    simp only
+    rw [List.drop_left, ih']
+    rfl
+
+/-- **Coupler callback structure**: with one size per model, every sub-model state that comes out
+of the Coupler's unflattenX has its reference structure and shapes -/
+theorem unflattenC_shapes (refs : List (List (Item β))) (ss : List Nat) (flat : List β)
+    (Ys : List (List (Item β))) (hlen : ss.length = refs.length)
+    (h : unflattenC flat ss refs = some Ys) : Ys.map shapes = refs.map shapes := by
+  induction refs generalizing ss flat Ys with
+  | nil =>
+    cases ss with
+    | nil => simp [unflattenC] at h; subst h; rfl
+    | cons s ss => simp at hlen
+  | cons ref refs ih =>
+    cases ss with
+    | nil => simp at hlen
+    | cons s ss =>
+      simp only [unflattenC] at h
+      cases hu : unflatten (flat.take s) ref with
+      | none => rw [hu] at h; simp at h
+      | some x =>
+        rw [hu] at h
+        simp only [Option.map_eq_some_iff] at h
+        obtain ⟨t, ht, rfl⟩ := h
+        have := ih ss (flat.drop s) t (by simpa using hlen) ht
+        simp only [List.map_cons, this, (unflatten_shapes ref _ x hu).1]
+
+end flat
+
+/-! ### non-vacuity: the hypotheses are satisfiable and the statements are about real runs -/
+
+/-- a concrete run over ℚ: t0 = 1, tf = 3, minFrac = 1/4, maxFrac = 1/2; proposals NaN, inf, 0
+then -1: steps 1/2, 1, 1/2 — arrives at exactly 3 after three steps -/
+example :
+    (solve (1 : ℚ) 3 (1/4) (1/2)
+      (fun h => match h.length with | 0 => .nan | 1 => .posInf | 2 => .fin 0 | _ => .fin (-1))
+      (fun _ => false) 10).times = [3, 5/2, 3/2] := by
+  decide +kernel
+
+example : (1 : ℚ) < 3 ∧ (0 : ℚ) < 1/4 ∧ (1/4 : ℚ) ≤ 1/2 ∧ (1 : ℚ) ≤ ((4 : Nat) : ℚ) * (1/4) := by norm_num
+
+/-- a stop request after the first step -/
+example :
+    (solve (0 : ℚ) 1 (1/4) 1 (fun _ => .fin (1/3)) (fun h => h.length == 1) 10).times = [1/3] := by
+  decide +kernel
+
+open KawinV.Flatten in
+example : unflatten (flatten [Item.scalar (1 : ℚ), .arr [2, 2] [2, 3, 4, 5], .arr [1] [6]])
+    [Item.scalar (0 : ℚ), .arr [2, 2] [0, 0, 0, 0], .arr [1] [0]]
+      = some [Item.scalar 1, .arr [2, 2] [2, 3, 4, 5], .arr [1] [6]] := by
+  decide +kernel
+
 end KawinV.Props.C05
